@@ -398,6 +398,6 @@ def run(ctx):
             return
         n = ctx.n(120, 1500) if to == 0 else ctx.n(25, 200)
         ctx.search(case_strategy(timeout_shard=to > 0), lambda c: run_case(c, st_, to, keep=True), n, nontrivial=_nontrivial, labels=_labels,
-                   name="cleanup%s%s" % (st_, to), max_rounds=4, shrink_budget_s=20)
+                   name="cleanup%s%s" % (st_, to), max_rounds=1, shrink_budget_s=20)   # one violation per shard: a failing case costs a hang ceiling
     finally:
         _teardown()
